@@ -766,7 +766,7 @@ func (p *InlineParser) parseDelimiterRun(state *inlineState, start int) (end int
 	}
 
 	elem := delimiterStackElement{
-		flags: activeFlag | emphasisFlags(state.source, node.Span()),
+		flags: activeFlag | emphasisFlagsInLine(state.source, node.Span(), state.unparsed[state.unparsedPos].Span()),
 		n:     node.Span().Len(),
 		node:  node,
 	}
@@ -1391,14 +1391,23 @@ func (p *InlineParser) lookForLinkOrImage(state *inlineState) int {
 // [can open emphasis]: https://spec.commonmark.org/0.30/#can-open-emphasis
 // [can close emphasis]: https://spec.commonmark.org/0.30/#can-close-emphasis
 func emphasisFlags(source []byte, span Span) uint8 {
+	return emphasisFlagsInLine(source, span, Span{Start: 0, End: len(source)})
+}
+
+// emphasisFlagsInLine is like [emphasisFlags]
+// for a delimiter run inside the given span of a line's text
+// (the line without the markers of any containers it is in).
+// The beginning and the end of the line count as whitespace,
+// whatever bytes surround the line's text in the source.
+func emphasisFlagsInLine(source []byte, span Span, line Span) uint8 {
 	var flags uint8
 	prevChar := ' '
-	if span.Start > 0 {
-		prevChar, _ = utf8.DecodeLastRune(source[:span.Start])
+	if span.Start > line.Start {
+		prevChar, _ = utf8.DecodeLastRune(source[line.Start:span.Start])
 	}
 	nextChar := ' '
-	if span.End < len(source) {
-		nextChar, _ = utf8.DecodeRune(source[span.End:])
+	if span.End < line.End {
+		nextChar, _ = utf8.DecodeRune(source[span.End:line.End])
 	}
 	leftFlanking := !isUnicodeWhitespace(nextChar) &&
 		(!isUnicodePunctuation(nextChar) || isUnicodeWhitespace(prevChar) || isUnicodePunctuation(prevChar))
